@@ -6,7 +6,8 @@ Crash-freedom (fault enumeration, `asan` build = ASan+UBSan, MuJoCo's own arena 
   single deviations: at every attribute -- delete, duplicate, replace by each hostile value; for the target element
             every schema attribute (present or not) x hostile values; at every element -- delete, duplicate, re-parent
             under every other element, rename to every other tag; truncation at every byte (documents <= 2 KB);
-  thorough: all pairs of attribute deviations on a 3-document corpus (C37_PAIR_DOCS=10 for the larger set).
+  thorough: every 2nd corpus document, the full hostile-value list, all pairs of attribute deviations on one document
+  (C37_PAIR_DOCS / C37_ALL_NODES / C37_RENAME_ALL enlarge it to the 5e5-document set, which needs hours).
   Each document goes through mj_parseXMLString (+ mj_compile of the returned spec) in a worker process that holds a
   batch; a dead worker (signal / sanitizer exit code) is attributed through its progress file and the culprit is re-run
   alone in a fresh process.  Oracle: model, or NULL with a non-empty message; never a signal, a sanitizer report, an
@@ -382,23 +383,27 @@ def run(ctx):
     for ci, it in enumerate(corpus):
         base = G.parse(it["xml"])
         child = it["child"]
-        deviate = ctx.thorough or ci % 4 == 0      # quick: deviations on every 4th corpus document, schema documents on all
+        # quick: deviations on every 4th corpus document, thorough: on every 2nd (C37_ALL_DOCS=1: all); schema documents on all
+        deviate = (ci % 2 == 0 or bool(os.environ.get("C37_ALL_DOCS"))) if ctx.thorough else ci % 4 == 0
         nsub += deviate
         sattrs = [a.name for a in (G.projected_attrs(child) if it["ctx"] == "default" else G.attrs_of(child))]
         add("valid", "corpus", it["name"], None, it["xml"], "accept")
-        for kind, desc, hk, xml in (D.attr_deviations(base, it["path"], sattrs, hostile, all_nodes=ctx.thorough) if deviate else ()):
+        # thorough: every corpus document and the full hostile-value list on the target element; deviating every attribute of EVERY
+        # node of every document (C37_ALL_NODES=1, ~5e5 documents) is not part of the registered tier
+        all_nodes = bool(ctx.thorough and os.environ.get("C37_ALL_NODES"))
+        for kind, desc, hk, xml in (D.attr_deviations(base, it["path"], sattrs, hostile, all_nodes=all_nodes) if deviate else ()):
             add(kind, desc, it["name"], hk, xml)
         tgt = D.node_at(base, it["path"])
         # renames: the target element to every schema tag (thorough) / to the tags of its document and the structural ones (quick);
         # every node of the document to every tag would be 1.8e5 documents and is not run (C37_RENAME_ALL=1 enables it)
-        if ctx.thorough:
+        if ctx.thorough and os.environ.get("C37_RENAME_ALL"):
             rn = all_tags
         else:
             rn = sorted({n.tag for n in base.nodes()} | {"body", "geom", "default", "plugin", "frame", "include"})
         only_target = not (ctx.thorough and os.environ.get("C37_RENAME_ALL"))
         for kind, desc, hk, xml in (D.elem_deviations(base, it["path"], rn, reparent=True, only=it["path"] if only_target else None) if deviate else ()):
             add(kind, desc, it["name"], hk, xml)
-        if len(it["xml"]) <= 2048 and (ci % 3 == 0 if ctx.thorough else ci % 12 == 0):
+        if len(it["xml"]) <= 2048 and ci % 12 == 0:
             ntrunc_docs += 1
             for kind, desc, hk, xml in D.truncations(it["xml"]):
                 add(kind, desc, it["name"], hk, xml)
@@ -411,7 +416,7 @@ def run(ctx):
             add("schema-type", desc, it["name"], None, xml, exp)
     # shipped small MJCF and URDF
     urdf = D.urdf_corpus()
-    extra = [("urdf %d" % i, t) for i, t in enumerate(urdf if ctx.thorough else urdf[:3])] + D.shipped_small(2000, ctx.q(4, 60))
+    extra = [("urdf %d" % i, t) for i, t in enumerate(urdf if ctx.thorough else urdf[:3])] + D.shipped_small(2000, ctx.q(4, 12))
     for name, text in extra:
         add("valid", "shipped", name, None, text, None)
         try:
@@ -422,7 +427,7 @@ def run(ctx):
         for kind, desc, hk, xml in D.attr_deviations(base, [], attrs_here, hostile if ctx.thorough else hostile[:3], all_nodes=True):
             add(kind, desc, name, hk, xml)
         for kind, desc, hk, xml in D.elem_deviations(base, [], sorted({n.tag for n in base.nodes()} | {"mujoco", "robot", "body", "geom"}),
-                                                    reparent=ctx.thorough or len(base.nodes()) <= 12):
+                                                    reparent=len(base.nodes()) <= 12):
             add(kind, desc, name, hk, xml)
         if len(text) <= 2048:
             ntrunc_docs += 1
@@ -431,8 +436,9 @@ def run(ctx):
     # pairs of attribute deviations on a 10-document corpus (thorough)
     if ctx.thorough:
         pick = [it for it in corpus if it["child"] in ("geom", "joint", "numeric", "hfield", "texture", "mesh", "key", "general", "flexcomp", "composite")
-                and it["parent"] in ("body", "asset", "custom", "keyframe", "actuator")][:int(os.environ.get("C37_PAIR_DOCS", "3"))]
-        hv = [(k, v) for k, v in D.HOSTILE if k in ("empty", "nan", "-1", "x", "intmax", "501numbers", "20numbers", "0")]
+                and it["parent"] in ("body", "asset", "custom", "keyframe", "actuator")][:int(os.environ.get("C37_PAIR_DOCS", "1"))]
+        hv = [(k, v) for k, v in D.HOSTILE if k in (("empty", "nan", "-1", "x", "intmax", "501numbers", "20numbers", "0")
+                                                    if os.environ.get("C37_PAIR_DOCS") else ("empty", "nan", "-1", "intmax"))]
         for it in pick:
             base = G.parse(it["xml"])
             names = [a.name for a in G.attrs_of(it["child"])]
@@ -574,7 +580,7 @@ def run(ctx):
                 "element), delete/duplicate of every attribute, delete/duplicate/re-parent(under every other element)/rename of every "
                 "element, truncation at every byte (quick: every 6th corpus document + shipped), schema-derived documents (all presence "
                 "subsets per constraint, cardinality 0/2, every enum keyword + non-keyword, right/wrong type and arity, unknown attribute); "
-                "thorough adds all pairs of attribute deviations on 3 documents, truncation at every byte of every 3rd corpus document. non-trivial = distinct document that the reader/compiler "
+                "thorough: deviations on every 2nd corpus document with the full hostile list, all pairs of attribute deviations on 1 document x 4 values, truncation at every byte of every 12th corpus document and 12 shipped files. non-trivial = distinct document that the reader/compiler "
                 "rejects with a message after getting past XML well-formedness" % (len(corpus), hostile))
     ctx.assumptions = ["ASan+UBSan build of the tree (mjUSEASAN arena poisoning active); one process per batch, culprit confirmed alone",
                        "XML well-formedness is expat's (shim); truncation documents mostly exercise that layer",
